@@ -4,6 +4,8 @@ import zlib
 import random
 import signal
 
+import numpy as np
+
 import gearpy.units as U
 from gearpy.mechanical_objects import DCMotor, SpurGear, HelicalGear, Flywheel, WormGear, WormWheel
 from gearpy.utils import add_fixed_joint, add_gear_mating, add_worm_gear_mating, StopCondition
@@ -396,7 +398,11 @@ def make_stop(els, s, sens=None):
         sn = sensor(sens, Tachometer, els[s['sensor'][1]])
     else:
         sn = sensor(sens, Amperometer, els[0])
-    return StopCondition(sensor=sn, threshold=mkq(s['thr']), operator=getattr(StopCondition, OPS[s['op']]))
+    # one threshold in three holds a numpy scalar (a value taken from an array: numpy.float64 is a float)
+    thr_ = mkq(s['thr'])
+    if zlib.crc32(repr(s['thr']).encode()) % 3 == 0:
+        thr_ = type(thr_)(np.float64(thr_.value), thr_.unit)
+    return StopCondition(sensor=sn, threshold=thr_, operator=getattr(StopCondition, OPS[s['op']]))
 
 
 def static_of(pt, els):
